@@ -102,6 +102,10 @@ func (ex *Exec) engineAxioms(used map[string]bool) string {
 (assert (forall ((a Str) (b Str) (i Int)) (! (=> (and (<= (slen a) i) (< i (+ (slen a) (slen b)))) (= (select (sarr (sconcat a b)) i) (select (sarr b) (+ (soff b) (- i (slen a)))))) :pattern ((select (sarr (sconcat a b)) i)))))
 `)
 	}
+	if used["sconcat"] && used["sid"] {
+		// concatenation is a function of contents
+		sb.WriteString("(assert (forall ((a Str) (b Str)) (! (= (sid (sconcat a b)) (catid (sid a) (sid b))) :pattern ((sconcat a b)))))\n")
+	}
 	if used["chr"] {
 		sb.WriteString(`(assert (forall ((c Int)) (! (and (= (soff (chr c)) 0) (=> (and (<= 0 c) (< c 128)) (and (= (slen (chr c)) 1) (= (select (sarr (chr c)) 0) c))) (=> (and (<= 128 c) (< c 2048)) (= (slen (chr c)) 2))) :pattern ((chr c)))))
 `)
@@ -128,8 +132,7 @@ func (ex *Exec) engineAxioms(used map[string]bool) string {
 `)
 	}
 	if used["joinspf"] {
-		sb.WriteString(`(assert (forall ((a Str) (b Str)) (! (= (sid (sconcat a b)) (catid (sid a) (sid b))) :pattern ((sconcat a b)))))
-(assert (forall ((r (Array Int Str)) (lo Int) (sep Str)) (! (and (= (sid (joinspf r lo (+ lo 1) sep)) (sid (select r lo))) (= (slen (joinspf r lo (+ lo 1) sep)) (slen (select r lo)))) :pattern ((joinspf r lo (+ lo 1) sep)))))
+		sb.WriteString(`(assert (forall ((r (Array Int Str)) (lo Int) (sep Str)) (! (and (= (sid (joinspf r lo (+ lo 1) sep)) (sid (select r lo))) (= (slen (joinspf r lo (+ lo 1) sep)) (slen (select r lo)))) :pattern ((joinspf r lo (+ lo 1) sep)))))
 (assert (forall ((r (Array Int Str)) (lo Int) (hi Int) (sep Str)) (! (=> (> hi lo) (and (= (sid (joinspf r lo (+ hi 1) sep)) (catid (sid (joinspf r lo hi sep)) (catid (sid sep) (sid (select r hi))))) (= (slen (joinspf r lo (+ hi 1) sep)) (+ (slen (joinspf r lo hi sep)) (slen sep) (slen (select r hi)))))) :pattern ((joinspf r lo (+ hi 1) sep)))))
 `)
 	}
